@@ -32,6 +32,9 @@ type G1Spec struct {
 	Deadline time.Duration
 	// Check is the oracle, evaluated in every reached state.  It may destroy the world.
 	Check func(w *World, path []string) []Violation
+	// Terminal (optional) is a destructive end-of-history phase with several variants (e.g. close orders):
+	// it is called with variant 0, 1, ... on freshly replayed instances until it reports more == false.
+	Terminal func(w *World, variant int) (viols []Violation, more bool)
 	// ExtraKey adds property-specific components to the state key.
 	ExtraKey func(w *World) string
 	WithRefs bool
@@ -39,6 +42,9 @@ type G1Spec struct {
 }
 
 var g1Specs = map[string]func(tier string) *G1Spec{}
+
+// g1DeadlineShare divides a property's time budget among the searches of its group.
+var g1DeadlineShare = 1
 
 type g1Req struct {
 	Prop string   `json:"prop"`
@@ -49,12 +55,13 @@ type g1Req struct {
 }
 
 type g1Succ struct {
-	Step    string      `json:"step"`
-	Key     string      `json:"key"`
-	Heights [5]int      `json:"h"`
-	Viols   []Violation `json:"viols,omitempty"`
-	Infra   string      `json:"infra,omitempty"`
-	Killed  int         `json:"killed,omitempty"`
+	Step      string      `json:"step"`
+	Key       string      `json:"key"`
+	Heights   [5]int      `json:"h"`
+	Viols     []Violation `json:"viols,omitempty"`
+	Infra     string      `json:"infra,omitempty"`
+	Killed    int         `json:"killed,omitempty"`
+	Terminals int         `json:"terminals,omitempty"`
 }
 
 type g1Resp struct {
@@ -212,6 +219,41 @@ func g1Expand(req g1Req) (resp g1Resp) {
 			return s, true
 		}
 		s, enabled := succ()
+		if enabled && sp.Terminal != nil && len(s.Viols) == 0 && s.Infra == "" {
+			full := append(append([]string{}, req.Path...), st)
+			if st == "." {
+				full = req.Path
+			}
+			for variant := 0; variant < 200; variant++ {
+				w, infra := replayWorld(sp, cfg, full)
+				var tv []Violation
+				more := false
+				func() {
+					defer func() {
+						if r := recover(); r != nil {
+							tv = append(tv, Violation{Prop: sp.Prop, Sig: "panic|terminal-phase|any", Msg: fmt.Sprintf("panic in terminal phase variant %d: %v\n%s", variant, r, debug.Stack())})
+						}
+						func() {
+							defer func() { recover() }()
+							w.Teardown()
+						}()
+					}()
+					if infra != "" {
+						s.Infra = infra
+						return
+					}
+					tv, more = sp.Terminal(w, variant)
+					if pm := w.threadPanicked(); pm != "" && len(tv) == 0 {
+						tv = append(tv, Violation{Prop: sp.Prop, Sig: "panic|moss-thread|terminal", Msg: pm})
+					}
+				}()
+				s.Viols = append(s.Viols, tv...)
+				s.Terminals++
+				if !more || len(s.Viols) > 0 || s.Infra != "" {
+					break
+				}
+			}
+		}
 		if enabled {
 			resp.Succ = append(resp.Succ, s)
 		}
@@ -253,15 +295,15 @@ type g1Node struct {
 }
 
 type g1Stats struct {
-	States, Transitions, Infra, KnownPruned, Killed, Skipped int
-	Shapes                                                   map[[5]int]int
-	PerCfg                                                   map[string][2]int
-	Depth                                                    int
-	Exhaustive                                               bool
-	Cap                                                      string
-	Samples                                                  []any
-	Violations                                               []foundViolation
-	Known                                                    map[string]int
+	States, Transitions, Infra, KnownPruned, Killed, Skipped, Terminals int
+	Shapes                                                              map[[5]int]int
+	PerCfg                                                              map[string][2]int
+	Depth                                                               int
+	Exhaustive                                                          bool
+	Cap                                                                 string
+	Samples                                                             []any
+	Violations                                                          []foundViolation
+	Known                                                               map[string]int
 }
 
 type foundViolation struct {
@@ -272,8 +314,10 @@ type foundViolation struct {
 
 func runG1(prop, tier string) (*g1Stats, *G1Spec) {
 	sp := g1Specs[prop](tier)
+	realProp := sp.Prop
 	pool := NewPool()
 	if sp.Deadline > 0 {
+		sp.Deadline /= time.Duration(g1DeadlineShare)
 		pool.Deadline = time.Now().Add(sp.Deadline)
 	}
 	findings := loadFindings()
@@ -323,6 +367,7 @@ func runG1(prop, tier string) (*g1Stats, *G1Spec) {
 				st.Transitions++
 			}
 			st.Killed += s.Killed
+			st.Terminals += s.Terminals
 			if s.Infra != "" {
 				st.Infra++
 				fmt.Fprintf(os.Stderr, "INFRA: cfg=%s path=%v: %s\n", cfg, full, s.Infra)
@@ -384,8 +429,8 @@ func runG1(prop, tier string) (*g1Stats, *G1Spec) {
 			break
 		}
 		st.Depth = depth + 1
-		fmt.Fprintf(os.Stderr, "[%s %s] depth %d: frontier %d -> %d, states %d, transitions %d, violations %d, %.0fs\n",
-			prop, tier, depth+1, len(frontier), len(next), st.States, st.Transitions, len(st.Violations), time.Since(start).Seconds())
+		fmt.Fprintf(os.Stderr, "[%s/%s %s] depth %d: frontier %d -> %d, states %d, transitions %d, violations %d, %.0fs\n",
+			realProp, prop, tier, depth+1, len(frontier), len(next), st.States, st.Transitions, len(st.Violations), time.Since(start).Seconds())
 		frontier = next
 	}
 	for ci, cfg := range sp.Configs {
@@ -422,7 +467,7 @@ func isolateCrash(pool *Pool, sp *G1Spec, prop, tier string, node g1Node, res Jo
 			kind = "hang"
 		}
 		full := append(append([]string{}, node.path...), st)
-		out = append(out, foundViolation{Violation{Prop: prop, Sig: kind + "|worker|any",
+		out = append(out, foundViolation{Violation{Prop: sp.Prop, Sig: kind + "|worker|any",
 			Msg: fmt.Sprintf("worker %s while executing the last step: %s %s", kind, r.Err, tail(r.Stderr, 1500))}, sp.Configs[node.cfg], full})
 	}
 	return out
